@@ -204,6 +204,38 @@ Example C12_unescape_samples :
   unescape [92; 113]%N = UBad /\ unescape [92; 85; 48; 48; 49; 49; 48; 48; 48; 48]%N = UBad.
 Proof. vm_compute. repeat split; reflexivity. Qed.
 
+(* ---- comparisons written literal-first (`20 <= x`, `'a' == status`) ---- *)
+(* Such a text is not of the shortcut shape: no shortcut is compiled for it, alone or as a part of a flat
+   AND/OR chain (the whole chain then falls back), so Evaluate answers what the general evaluator answers. *)
+Theorem C12_literal_first_never_shortcut : forall s c, parse_cmp_lf s = Some c ->
+  try_fast_compare s = None /\
+  (forall t, In s (split_logic [] t) -> try_fast_compound t = None).
+Proof. exact literal_first_never_shortcut. Qed.
+Print Assumptions C12_literal_first_never_shortcut.
+
+(* The reading parse_cmp_lf gives it (column first, operator mirrored) is the swap of the operands:
+   `lit OP v`, i.e. OP on the three-way comparison seen from the literal, holds exactly when
+   `v mirror(OP) lit` does - in particular `lit <= v` is `v >= lit`, true on v = lit. *)
+Theorem C12_mirror_op_swaps_operands : forall o c,
+  op_holds (mirror_op o) (option_map CompOpp c) = op_holds o c.
+Proof. exact mirror_op_swaps_operands. Qed.
+Print Assumptions C12_mirror_op_swaps_operands.
+
+Theorem C12_mirror_op_involutive : forall o, mirror_op (mirror_op o) = o.
+Proof. exact mirror_op_involutive. Qed.
+Print Assumptions C12_mirror_op_involutive.
+
+(* "20 <= x" and "y > 0 && 20 <= x": read as x >= 20, no shortcut, and x = 20 is accepted *)
+Example C12_literal_first_example :
+  let t := [50; 48; 32; 60; 61; 32; 120]%N in
+  let u := [121; 32; 62; 32; 48; 32; 38; 38; 32; 50; 48; 32; 60; 61; 32; 120]%N in
+  parse_cmp_lf t = Some (mkCmp [120%N] OGe (LInt 20)) /\ parse_shape t = None /\ fast_of_text t = None /\
+  fast_of_text u = None /\
+  parse_shape_any u = Some (SChain true [mkCmp [121%N] OGt (LInt 0); mkCmp [120%N] OGe (LInt 20)]) /\
+  eval_general (SCmp (mkCmp [120%N] OGe (LInt 20))) [([120%N], VI KInt 20)] = true /\
+  eval_general (SCmp (mkCmp [120%N] OGe (LInt 20))) [([120%N], VI KInt 19)] = false.
+Proof. vm_compute. repeat split; reflexivity. Qed.
+
 (* ---- non-vacuity: the hypotheses are satisfiable and the shortcuts do answer ---- *)
 (* "x >= 5 && y == 'ab'" read from its text, on x = int32(7), y = "ab": chain shortcut answers true;
    on x = nil the chain is left to the general evaluator, whose evaluation fails: rejected *)
